@@ -681,7 +681,7 @@ func genName(t *rapid.T) string {
 	if rapid.IntRange(0, 2).Draw(t, "special") == 0 {
 		return rapid.SampledFrom(specialNames).Draw(t, "name")
 	}
-	n := rapid.SampledFrom([]int{1, 2, 3, 15, 16, 17, 22, 23, 24, 25, 60, 255, 256}).Draw(t, "namelen")
+	n := rapid.SampledFrom([]int{1, 2, 3, 15, 16, 17, 22, 23, 24, 25, 60, 63, 64, 65, 127, 128, 129, 255, 256}).Draw(t, "namelen")
 	rs := rapid.SliceOfN(rapid.SampledFrom([]rune{'a', 'b', 'z', 'A', '0', '_', 'é', 'ß', '€', '🖋', 0}), 0, n).Draw(t, "runes")
 	var b []byte
 	for _, x := range rs {
@@ -787,7 +787,7 @@ func TestPropLib(t *testing.T) {
 						continue
 					}
 					seen[name] = true
-					st.Extra = append(st.Extra, Attr{Name: name, Len: rapid.SampledFrom([]int{0, 1, 23, 24, 255, 256, 32, 64, 65536}).Draw(t, "vlen"), Tag: rapid.Uint64Range(0, 99).Draw(t, "vtag")})
+					st.Extra = append(st.Extra, Attr{Name: name, Len: rapid.SampledFrom([]int{0, 1, 23, 24, 255, 256, 32, 63, 64, 65, 127, 128, 129, 512, 513, 4096, 4097, 65536}).Draw(t, "vlen"), Tag: rapid.Uint64Range(0, 99).Draw(t, "vtag")})
 				}
 			}
 			c.Steps = append(c.Steps, st)
